@@ -46,7 +46,7 @@ FULL = gen.profile(
 PROFILES = {
   "full": FULL,
   # one tree with > 64 dofs: sparse LDL factorisation levels, sparse Jacobian
-  "bigtree": gen.profile(nbody=(2, 4), big_tree=66, jacobians=("sparse",), p_limit=0.5, p_frictionloss=0.3, equality=1, eq_kinds=("joint", "connect"), solvers=("Newton", "CG"), p_armature=0.6),
+  "bigtree": gen.profile(nbody=(2, 4), big_tree=66, big_tree_branch=6, jacobians=("sparse",), p_limit=0.5, p_frictionloss=0.3, equality=1, eq_kinds=("joint", "connect"), solvers=("Newton", "CG"), p_armature=0.6),
   "free": gen.profile(
     nbody=(3, 7), collide=True, contact_rich=True, p_plane=1.0, p_free=1.0, p_branch=0.0, condims=(3, 4, 6, 1), cones=("pyramidal", "elliptic"), solvers=("Newton", "CG"), jacobians=("dense", "sparse")
   ),
